@@ -34,7 +34,7 @@ var (
 		"/~x", "/%7Ex", "/%7ex", "/a%2Fb", "/a%2fb", "/a//b", "/a/", "/%E9", "/%e9", "/\xe9", "/%C3%A9", "/é", "/a/../../b", "/..",
 		"/u_d-e.f", "/u%5Fd%2De%2Ef", "/u%5fd%2de%2ef",
 		"/d[1]", "/d%5B1%5D", "/m;v=1", "/m%3Bv%3D1", "/x^y", "/x%5Ey", "/p:q@r", "/p%3Aq%40r"}
-	uQueries = []string{"", "?", "?q=1", "?q=%31", "?Q=1", "?q=%E9", "?q=%e9", "?q=\xe9", "?q=é", "?q=%C3%A9", "?a=1&b=2", "?b=2&a=1", "?q=a+b", "?q=a%2Bb", "?q=a%2bb", "?q=a%20b",
+	uQueries = []string{"", "?", "?q=1", "?q=%31", "?Q=1", "?q=%E9", "?q=%e9", "?q=\xe9", "?q=é", "?q=%C3%A9", "?q=\xef\xbf\xbd", "?q=%EF%BF%BD", "?a=1&b=2", "?b=2&a=1", "?q=a+b", "?q=a%2Bb", "?q=a%2bb", "?q=a%20b",
 		"?k_1=v-2", "?k%5F1=v%2D2",
 		"?i[]=1", "?i%5B%5D=1", "?q=a%26b", "?q=a%3Db", "?q=a/b?c", "?q=a%2Fb%3Fc"}
 	uFrags = []string{"", "#f"}
@@ -349,6 +349,61 @@ func customC03(t *testing.T, e *mc.Explorer) *mc.ShardResult {
 			}
 		}
 	}
+	// ---- pass 4: end to end WITH storing, one store per authority block (plain http, no userinfo: every host and
+	// port form): every URL of the block is fetched and stored, then fetched again. Whatever comes from the store must
+	// have been minted for a URL with the same normal form — this also covers collisions below the primary key
+	// (response ids, file names) that passes 1-3 cannot see.
+	stored4 := 0
+	{
+		blocks := map[int][]*uCase{}
+		var ids []int
+		for _, c := range cases {
+			if c.auth%e.Shards != e.Shard || c.u.Scheme != "http" || c.u.User != nil {
+				continue
+			}
+			if _, ok := blocks[c.auth]; !ok {
+				ids = append(ids, c.auth)
+			}
+			blocks[c.auth] = append(blocks[c.auth], c)
+		}
+		for _, id := range ids {
+			blk := blocks[id]
+			synctest.Test(t, func(t *testing.T) {
+				w := world.New(world.Opt{})
+				defer w.Close()
+				w.NoWait = true
+				answer(w, RS{Status: 200, H: H("Cache-Control", "max-age=100000")})
+				minted := map[string]*uCase{}
+				for _, c := range blk {
+					if o := w.Do(world.Req("GET", c.raw)); o.Tok != "" && len(o.Calls) > 0 {
+						minted[o.Tok] = c
+					}
+				}
+				for _, c := range blk {
+					o := w.Do(world.Req("GET", c.raw))
+					stored4++
+					if o.Tok != "" && len(o.Calls) > 0 {
+						minted[o.Tok] = c
+						continue
+					}
+					from := minted[o.Tok]
+					if o.Err != nil || o.Panic != nil || from == nil || from.loose.String() == c.loose.String() {
+						continue
+					}
+					sig := "URI collision through a stored response: differ in " + from.loose.Diff(c.loose)
+					if v, ok := viol[sig]; ok {
+						v.Count++
+						continue
+					}
+					viol[sig] = &mc.Violation{Property: "C03", Signature: sig, Count: 1, Shard: e.Shard,
+						Message: fmt.Sprintf("with every URL of the authority fetched once, %q is answered from the store with the response minted for %q although the URIs are not equivalent (normal forms %s vs %s)", c.raw, from.raw, c.loose, from.loose),
+						Choices: []int{}, Trace: []mc.Pt{{Label: "block", Desc: strconv.Itoa(id)}, {Label: "store-url", Desc: strconv.Quote(from.raw)}, {Label: "request-url", Desc: strconv.Quote(c.raw)}}}
+				}
+			})
+			res.Executions += int64(2 * len(blk))
+			res.Transitions += int64(4 * len(blk))
+		}
+	}
 	sigs := make([]string, 0, len(viol))
 	for s := range viol {
 		sigs = append(sigs, s)
@@ -360,6 +415,7 @@ func customC03(t *testing.T, e *mc.Explorer) *mc.ShardResult {
 	if res.Extra == nil {
 		res.Extra = map[string]any{}
 	}
+	res.Extra["stored_lookups_per_authority_block"] = stored4
 	res.Extra["lookups_on_long_lived_transports"] = seqObs
 	res.Extra["history_dependent_keys"] = seqDiff
 	if e.Shard == 0 { // identical in every shard: reported once (the runner sums numeric extras)
@@ -433,6 +489,26 @@ func replayURLPair(t *testing.T, v *mc.Violation) bool {
 			a, _ = strconv.Unquote(p.Desc)
 		case "request-url":
 			b, _ = strconv.Unquote(p.Desc)
+		}
+	}
+	for _, p := range v.Trace {
+		if p.Label == "block" { // found with every URL of the authority stored: both orders of storing the two
+			hit := false
+			for _, first := range [][2]string{{a, b}, {b, a}} {
+				synctest.Test(t, func(t *testing.T) {
+					w := world.New(world.Opt{})
+					defer w.Close()
+					answer(w, RS{Status: 200, H: H("Cache-Control", "max-age=100000")})
+					o1, o2 := get(w, first[0]), get(w, first[1])
+					toks := map[string]string{o1.Tok: first[0], o2.Tok: first[1]}
+					o3 := get(w, b)
+					fmt.Printf("  | GET %q -> %s\n  | GET %q -> %s\n  | GET %q -> %s\n", first[0], o1, first[1], o2, b, o3)
+					if o3.Err == nil && len(o3.Calls) == 0 && toks[o3.Tok] == a {
+						hit = true
+					}
+				})
+			}
+			return hit
 		}
 	}
 	reused, narr := confirmPair(t, a, b)
